@@ -208,6 +208,12 @@ def cactLine (i : Nat) (a : SAct) : String :=
 def scriptOfTok (t : String) : Option HandlerRes :=
   if t.startsWith "R:" then (dictOfTok (String.ofList (t.toList.drop 2))).map .ret
   else if t.startsWith "E:" then (natOptOfTok (String.ofList (t.toList.drop 2))).map .err
+  else if t.startsWith "V:" then
+    -- `V:<k1;k2>:<dict>`: the keys returned as state-variable objects, then the values
+    let rest := t.toList.drop 2
+    let names := rest.takeWhile (· != ':')
+    let d := String.ofList ((rest.dropWhile (· != ':')).drop 1)
+    (dictOfTok d).map fun vals => .retVars vals (((String.ofList names).splitOn ";").map (·.toList))
   else none
 
 def callResTok : CallRes → String
